@@ -38,7 +38,8 @@ type expect =
 
 type wop = WNone | WReady of int * bool | WEnq of int | WDeq of int | WAct of string * int * int
 type tst = { mutable cur : wop; mutable evs : (int * event) list; mutable in_call : bool; mutable p_open : bool;
-             mutable last_ev : int; mutable kinds : char array }
+             mutable last_ev : int; mutable kinds : char array;
+             mutable last_file : string }
 
 let site_of e = try Hashtbl.find sites (e.file, e.line) with Not_found -> ("", 0)
 let time_of_string s = if s = "none" then None else Some (z_of_int (int_of_string s))
@@ -56,8 +57,13 @@ let () =
   let nact = ref 0 in
   let emit pos tid x = incr nact; actions := (pos, !nact, tid, x) :: !actions in
   let objs = ref [] in
-  let ths = Array.init 16 (fun _ -> { cur = WNone; evs = []; in_call = false; p_open = false; last_ev = 0; kinds = [||] }) in
+  let ths = Array.init 16 (fun _ -> { cur = WNone; evs = []; in_call = false; p_open = false; last_ev = 0; kinds = [||];
+                                     last_file = "" }) in
   let skipped = ref 0 in
+  let mutex_v : (string, int list) Hashtbl.t = Hashtbl.create 16 in
+  let mutex_p : (string, int list) Hashtbl.t = Hashtbl.create 16 in
+  let p_addr : (int, string) Hashtbl.t = Hashtbl.create 16 in
+  let injected : (string, int) Hashtbl.t = Hashtbl.create 16 in
   let fail_at pos msg = raise (Mismatch (Printf.sprintf "%s (at trace line %d: %s)" msg (pos + 1) (if pos < n then lines.(pos) else ""))) in
   (* linearization helpers over the chronological events of one announced operation *)
   let is_nload (_, e) = e.file = "note.c" && e.kind = "load" &&
@@ -76,6 +82,16 @@ let () =
         (match parse_event line with
          | Some e ->
            cur_now := e.now;
+           (* posts and takes that belong to nsync_mu_lock sleeps (not part of this model): a V whose caller came from mu.c, a
+              success of the untimed nsync_mu_semaphore_p *)
+           if e.file = "nsync_semaphore_futex.c" && e.kind = "cas" && e.ok then begin
+             let fn = fst (site_of e) in
+             if fn = "nsync_mu_semaphore_v" && e.tid > 0 && e.tid < 16 && ths.(e.tid).last_file = "mu.c" then
+               Hashtbl.replace mutex_v e.obj (pos :: (try Hashtbl.find mutex_v e.obj with Not_found -> []))
+             else if fn = "nsync_mu_semaphore_p" then
+               Hashtbl.replace mutex_p e.obj (pos :: (try Hashtbl.find mutex_p e.obj with Not_found -> []))
+           end;
+           if e.tid > 0 && e.tid < 16 && e.file <> "nsync_semaphore_futex.c" && e.file <> "-" then ths.(e.tid).last_file <- e.file;
            if e.tid > 0 && e.tid < 16 then begin
              let st = ths.(e.tid) in
              (match st.cur with
@@ -85,7 +101,7 @@ let () =
                   else if e.kind = "free" then emit pos e.tid XFree
                   else if e.file = "nsync_semaphore_futex.c" && fst (site_of e) = "nsync_mu_semaphore_p_with_deadline" then begin
                     st.p_open <- true;
-                    if e.kind = "cas" && e.ok then begin emit pos e.tid (XP true); st.p_open <- false end
+                    if e.kind = "cas" && e.ok then begin Hashtbl.replace p_addr pos e.obj; emit pos e.tid (XP true); st.p_open <- false end
                   end else incr skipped
                 end else incr skipped
               | _ -> st.evs <- (pos, e) :: st.evs);
@@ -210,13 +226,29 @@ let () =
         let idle () = (match WaitNReplay.pc_of !w t with PIdle -> () | _ -> fail "the model's thread is not idle where the implementation starts a new operation") in
         let push o = idle (); w := WaitNReplay.push_op !w t o in
         (match x with
-         | XCall o -> push o; (match o with OpWaitN (_, _, os) -> max_count := max !max_count (Stdlib.List.length os) | _ -> ())
+         | XCall o ->
+           push o; (match o with OpWaitN (_, _, os) -> max_count := max !max_count (Stdlib.List.length os) | _ -> ())
          | XNotify i -> push (OpNotify (nat_of_int i))
          | XPoll i -> push (OpPoll (nat_of_int i))
          | XAdd (i, d, _) -> push (OpAdd (nat_of_int i, z_of_int d))
          | XTake (sg, i, _) -> push (if sg then OpSignal (nat_of_int i) else OpBroadcast (nat_of_int i))
          | XMuLock -> push (OpLock (nat_of_int 0))
          | XMuUnlock -> push (OpUnlock (nat_of_int 0))
+         | XP true when int_of_nat (WaitNReplay.sem_of !w t) = 0 ->
+           (* the implementation's P succeeded where the model holds no post: legitimate only if an nsync_mu_lock sleep of this
+              thread left one behind on the same semaphore (a V made from mu.c not matched by a P of the mutex code) -- then the
+              environment step OpStale supplies it, made by pseudo-thread 0 *)
+           let addr = (try Hashtbl.find p_addr pos with Not_found -> "") in
+           let before l = Stdlib.List.length (Stdlib.List.filter (fun p -> p < pos) l) in
+           let avail = before (try Hashtbl.find mutex_v addr with Not_found -> []) - before (try Hashtbl.find mutex_p addr with Not_found -> [])
+                       - (try Hashtbl.find injected addr with Not_found -> 0) in
+           if avail >= 1 then begin
+             let env = nat_of_int 0 in
+             w := WaitNReplay.push_op !w env (OpStale t);
+             let ((w', _), _) = WaitNModel.step !w env false in w := w';
+             Hashtbl.replace injected addr (1 + (try Hashtbl.find injected addr with Not_found -> 0));
+             cover "stale_post"
+           end
          | _ -> ());
         let ((w', ev), _touched) = WaitNModel.step !w t (match x with XP false -> true | _ -> false) in
         w := w'; incr steps;
